@@ -260,7 +260,9 @@ type totals struct {
 	crashes    []map[string]interface{}
 	deadline   bool
 	infra      []string
-	bestPerSig map[string]Violation
+	// per signature: the few simplest violations seen (more than one, so that if the simplest
+	// does not reproduce from its replay file the next one is tried)
+	bestPerSig map[string][]Violation
 }
 
 func (t *totals) merge(c *Ctx) {
@@ -283,10 +285,17 @@ func (t *totals) merge(c *Ctx) {
 		}
 	}
 	for _, v := range c.Violations {
-		b, ok := t.bestPerSig[v.Sig]
-		if !ok || v.Size < b.Size || (v.Size == b.Size && v.Detail < b.Detail) {
-			t.bestPerSig[v.Sig] = v
+		l := append(t.bestPerSig[v.Sig], v)
+		sort.SliceStable(l, func(i, j int) bool {
+			if l[i].Size != l[j].Size {
+				return l[i].Size < l[j].Size
+			}
+			return l[i].Detail < l[j].Detail
+		})
+		if len(l) > 4 {
+			l = l[:4]
 		}
+		t.bestPerSig[v.Sig] = l
 	}
 }
 
@@ -348,7 +357,7 @@ func Main(id, tier string) int {
 	if nw < 1 {
 		nw = 1
 	}
-	tot := &totals{ctx: newCtx(), bestPerSig: map[string]Violation{}}
+	tot := &totals{ctx: newCtx(), bestPerSig: map[string][]Violation{}}
 	tmp, err := os.MkdirTemp("", "vcheck-"+id+"-")
 	if err != nil {
 		fmt.Fprintln(os.Stderr, err)
@@ -382,6 +391,8 @@ func Main(id, tier string) int {
 }
 
 const maxCrashesPerShard = 12
+
+var describeMu sync.Mutex
 
 func superviseShard(ck *Check, job Job, tier string, shard, nshards int, deadline time.Time, tmp string, tot *totals) {
 	from := 0
@@ -467,6 +478,7 @@ func superviseShard(ck *Check, job Job, tier string, shard, nshards int, deadlin
 		if atomic.LoadInt32(&hung) == 1 {
 			kind = "no return within 60 s"
 		}
+		describeMu.Lock() // the job object is shared by the supervisor goroutines
 		cs := job.Describe(cur)
 		if sd, ok := job.(SubDescriber); ok {
 			if tick := int(atomic.LoadInt64(&progArr[1])); tick > 0 {
@@ -475,6 +487,7 @@ func superviseShard(ck *Check, job Job, tier string, shard, nshards int, deadlin
 				}
 			}
 		}
+		describeMu.Unlock()
 		first := firstLine(stderr.String())
 		what := ""
 		if pth, ok := cs["path"].(string); ok {
@@ -544,27 +557,30 @@ func finish(ck *Check, tier string, seed, nUnits, nWorkers int, startT time.Time
 	os.MkdirAll(filepath.Join(vdir, "replays"), 0755)
 	findings := loadFindings()
 
-	// order violations: simplest first
-	var vs []Violation
-	for _, v := range tot.bestPerSig {
-		vs = append(vs, v)
+	// order signatures: simplest first
+	var sigs []string
+	for sig := range tot.bestPerSig {
+		sigs = append(sigs, sig)
 	}
-	sort.Slice(vs, func(i, j int) bool {
-		if vs[i].Size != vs[j].Size {
-			return vs[i].Size < vs[j].Size
+	sort.Slice(sigs, func(i, j int) bool {
+		a, b := tot.bestPerSig[sigs[i]][0], tot.bestPerSig[sigs[j]][0]
+		if a.Size != b.Size {
+			return a.Size < b.Size
 		}
-		return vs[i].Sig < vs[j].Sig
+		return a.Sig < b.Sig
 	})
+	vs := sigs
 
 	exit := 0
 	reported, known, unconfirmed := 0, 0, 0
 	var lines []string
-	for _, v := range vs {
+	for _, sig := range sigs {
+		cands := tot.bestPerSig[sig]
 		// known finding?
 		isKnown := false
 		for _, f := range findings {
-			if f.Kind == "finding" && f.Property == ck.ID && f.Sig != "" && f.Sig == v.Sig {
-				lines = append(lines, fmt.Sprintf("KNOWN-FINDING: property=%s %s [sig=%s]", ck.ID, f.What, v.Sig))
+			if f.Kind == "finding" && f.Property == ck.ID && f.Sig != "" && f.Sig == sig {
+				lines = append(lines, fmt.Sprintf("KNOWN-FINDING: property=%s %s [sig=%s]", ck.ID, f.What, sig))
 				isKnown = true
 				known++
 				break
@@ -576,34 +592,42 @@ func finish(ck *Check, tier string, seed, nUnits, nWorkers int, startT time.Time
 		if reported+unconfirmed >= 12 {
 			continue
 		}
-		v.Case["property"] = ck.ID
-		v.Case["sig"] = v.Sig
-		v.Case["detail"] = v.Detail
-		b, _ := json.MarshalIndent(v.Case, "", " ")
-		h := sha1.Sum(b)
-		file := filepath.Join(vdir, "replays", ck.ID+"-"+hex.EncodeToString(h[:6])+".json")
-		os.WriteFile(file, b, 0644)
-		// confirm through the replay path (fresh process, five times) unless it is a crash
-		_, noReplay := v.Case["noreplay"]
-		if _, crash := v.Case["crash"]; !crash && !noReplay && ck.Replay != nil {
+		confirmedOne := false
+		var lastFile, lastDetail string
+		for _, v := range cands {
+			v.Case["property"] = ck.ID
+			v.Case["sig"] = v.Sig
+			v.Case["detail"] = v.Detail
+			b, _ := json.MarshalIndent(v.Case, "", " ")
+			h := sha1.Sum(b)
+			file := filepath.Join(vdir, "replays", ck.ID+"-"+hex.EncodeToString(h[:6])+".json")
+			os.WriteFile(file, b, 0644)
+			lastFile, lastDetail = file, v.Detail
+			// confirm through the replay path (fresh process, five times) unless it is a crash
+			_, noReplay := v.Case["noreplay"]
 			ok := true
-			for k := 0; k < 5; k++ {
-				out, _ := exec.Command(os.Args[0], "-replay1", file).CombinedOutput()
-				if !strings.HasPrefix(string(out), "REPRODUCED") {
-					ok = false
-					break
+			if _, crash := v.Case["crash"]; !crash && !noReplay && ck.Replay != nil {
+				for k := 0; k < 5; k++ {
+					out, _ := exec.Command(os.Args[0], "-replay1", file).CombinedOutput()
+					if !strings.HasPrefix(string(out), "REPRODUCED") {
+						ok = false
+						break
+					}
 				}
 			}
-			if !ok {
-				unconfirmed++
-				lines = append(lines, fmt.Sprintf("INTERNAL: property=%s violation did not reproduce from its replay file %s (machinery error, not reported): %s", ck.ID, file, v.Detail))
-				continue
+			if ok {
+				confirmedOne = true
+				reported++
+				exit = 1
+				lines = append(lines, fmt.Sprintf("VIOLATION property=%s replay=%s", ck.ID, file))
+				lines = append(lines, "  "+v.Detail)
+				break
 			}
 		}
-		reported++
-		exit = 1
-		lines = append(lines, fmt.Sprintf("VIOLATION property=%s replay=%s", ck.ID, file))
-		lines = append(lines, "  "+v.Detail)
+		if !confirmedOne {
+			unconfirmed++
+			lines = append(lines, fmt.Sprintf("INTERNAL: property=%s violation did not reproduce from its replay file %s (machinery error, not reported): %s", ck.ID, lastFile, lastDetail))
+		}
 	}
 
 	exhaustive := !tot.deadline && len(tot.infra) == 0
